@@ -21,6 +21,7 @@ type Tmpl struct {
 	Body   []Cmd   `json:"body"`
 	NsA    string  `json:"nsa"` // namespace autoescape attribute ("" = unspecified)
 	TA     string  `json:"ta"`  // template autoescape attribute
+	Both   bool    `json:"both"` // declare the first param in soydoc AND the rest as header params (invalid Soy)
 	// unparse-only fields
 	Hdr     bool `json:"-"` // declare params with {@param} instead of soydoc
 	Private bool `json:"-"`
@@ -164,7 +165,9 @@ func UnparseProgram(p *Program, st Style) []File {
 		for _, name := range names {
 			t := p.Bundle[name]
 			b.WriteString("\n")
-			if !t.Hdr {
+			if t.Both && len(t.Params) >= 2 {
+				b.WriteString("/**\n * @param " + t.Params[0].Name + "\n */\n")
+			} else if !t.Hdr {
 				b.WriteString("/**\n")
 				for _, pa := range t.Params {
 					if pa.Opt {
@@ -183,7 +186,11 @@ func UnparseProgram(p *Program, st Style) []File {
 				b.WriteString(` private="true"`)
 			}
 			b.WriteString("}\n")
-			if t.Hdr {
+			if t.Both && len(t.Params) >= 2 {
+				for _, pa := range t.Params[1:] {
+					b.WriteString("{@param " + pa.Name + ": any}\n")
+				}
+			} else if t.Hdr {
 				for _, pa := range t.Params {
 					if pa.Opt {
 						b.WriteString("{@param? " + pa.Name + ": any}\n")
